@@ -135,7 +135,45 @@ static int standalone() {
         if (memcmp(K->key, R->key, 4 * (size_t)n)) { printf("LWE key n=%d differs after export/import\n", n); return 1; } delete_LweKey(K); delete_LweKey(R); }
     return 0;
 }
+// C18 (binary sections): every binary object type, small shapes, no key generation: (a) the type tag replaced by every OTHER tag the library
+// knows, (b) every proper prefix that ends inside the binary section.  Each import runs in a forked child; the oracle from the property statement:
+// a mistyped or truncated input is never imported with a clean stream (the child must terminate abnormally, or the C++ stream must end up failed).
+#include <unistd.h>
+#include <sys/wait.h>
+static const int32_t ALL_TAGS[] = {42, 84, 83, 168, 167, 43, 85, 169, 200, 201};
+template <class F> static int accepted(const std::string &bytes, F import) {          // 1 = imported normally with a clean stream
+    fflush(stdout); pid_t pid = fork();
+    if (pid == 0) { fclose(stderr); std::istringstream in(bytes); import(in); _exit(in.fail() || in.bad() ? 3 : 0); }
+    int st = 0; waitpid(pid, &st, 0); return WIFEXITED(st) && WEXITSTATUS(st) == 0;
+}
+template <class F> static int attack(const char *what, const std::string &good, size_t tagpos, F import) {
+    int32_t own; memcpy(&own, good.data() + tagpos, 4);
+    for (int32_t t : ALL_TAGS) if (t != own) { std::string b = good; memcpy(&b[tagpos], &t, 4); if (accepted(b, import)) { printf("%s: section with type tag %d (own tag %d) is imported normally with a clean stream\n", what, t, own); return 1; } }
+    for (size_t len = tagpos + 1; len < good.size(); len += (good.size() - tagpos > 64 ? 13 : 1)) if (accepted(good.substr(0, len), import)) { printf("%s: truncated input (%zu of %zu bytes) is imported normally with a clean stream\n", what, len, good.size()); return 1; }
+    if (!accepted(good, import)) { printf("%s: the unmodified export is not importable (oracle self-check)\n", what); return 1; }
+    return 0;
+}
+static size_t binpos(const std::string &s, int32_t tag) { for (size_t i = s.size() >= 4 ? s.size() - 4 : 0; ; i--) { int32_t v; memcpy(&v, s.data() + i, 4); if (v == tag && (i == 0 || s[i - 1] == '\n')) return i; if (i == 0) break; } return std::string::npos; }
+static int mistyped() {
+    LweParams *lp = new_LweParams(5, 0.25, 0.5); TLweParams *tp = new_TLweParams(8, 2, 0.25, 0.5); TGswParams *gp = new_TGswParams(2, 8, tp);
+    LweSample *ls = new_LweSample(lp); for (int i = 0; i < 5; i++) ls->a[i] = 1000 + i; ls->b = 7; ls->current_variance = 0.5;
+    TLweSample *ts = new_TLweSample(tp); for (int q = 0; q <= 2; q++) for (int j = 0; j < 8; j++) ts->a[q].coefsT[j] = 100 * q + j; ts->current_variance = 0.25;
+    TGswSample *gs = new_TGswSample(gp); for (int r = 0; r < gp->kpl; r++) { for (int q = 0; q <= 2; q++) for (int j = 0; j < 8; j++) gs->all_sample[r].a[q].coefsT[j] = r * 1000 + q * 10 + j; gs->all_sample[r].current_variance = 0.125; }
+    LweKey *lk = new_LweKey(lp); for (int i = 0; i < 5; i++) lk->key[i] = i % 2;
+    TLweKey *tk = new_TLweKey(tp); TGswKey *gk = new_TGswKey(gp); for (int q = 0; q < 2; q++) for (int j = 0; j < 8; j++) tk->key[q].coefs[j] = gk->key[q].coefs[j] = (q + j) % 2;
+    LweKeySwitchKey *ks = new_LweKeySwitchKey(3, 2, 1, lp); for (int i = 0; i < 3; i++) for (int j = 0; j < 2; j++) for (int h = 0; h < 2; h++) { for (int p = 0; p < 5; p++) ks->ks[i][j][h].a[p] = i * 100 + j * 10 + h + p; ks->ks[i][j][h].b = 5; ks->ks[i][j][h].current_variance = 0.01; }
+    { std::ostringstream o; export_lweSample_toStream(o, ls, lp); LweSample *d = new_LweSample(lp); if (attack("LWE sample", o.str(), 0, [&](std::istream &in) { import_lweSample_fromStream(in, d, lp); })) return 1; }
+    { std::ostringstream o; export_tlweSample_toStream(o, ts, tp); TLweSample *d = new_TLweSample(tp); if (attack("TLWE sample", o.str(), 0, [&](std::istream &in) { import_tlweSample_fromStream(in, d, tp); })) return 1; }
+    { std::ostringstream o; export_tgswSample_toStream(o, gs, gp); TGswSample *d = new_TGswSample(gp); if (attack("TGSW sample", o.str(), 0, [&](std::istream &in) { import_tgswSample_fromStream(in, d, gp); })) return 1; }
+    { std::ostringstream o; export_lweKey_toStream(o, lk); std::string b = o.str(); size_t p = binpos(b, 43); if (p == std::string::npos) { printf("LWE key export: tag not found\n"); return 1; } if (attack("LWE key", b, p, [&](std::istream &in) { (void)new_lweKey_fromStream(in); })) return 1; }
+    { std::ostringstream o; export_tlweKey_toStream(o, tk); std::string b = o.str(); size_t p = binpos(b, 85); if (p == std::string::npos) { printf("TLWE key export: tag not found\n"); return 1; } if (attack("TLWE key", b, p, [&](std::istream &in) { (void)new_tlweKey_fromStream(in); })) return 1; }
+    { std::ostringstream o; export_tgswKey_toStream(o, gk); std::string b = o.str(); size_t p = binpos(b, 169); if (p == std::string::npos) { printf("TGSW key export: tag not found\n"); return 1; } if (attack("TGSW key", b, p, [&](std::istream &in) { (void)new_tgswKey_fromStream(in); })) return 1; }
+    { std::ostringstream o; export_lweKeySwitchKey_toStream(o, ks); std::string b = o.str(); size_t p = std::string::npos; for (size_t i = 0; i + 4 <= b.size(); i++) { int32_t v; memcpy(&v, b.data() + i, 4); if (v == 200 && i > 0 && b[i - 1] == '\n') { p = i; break; } }
+      if (p == std::string::npos) { printf("key-switching key export: tag not found\n"); return 1; } if (attack("key-switching key", b, p, [&](std::istream &in) { (void)new_lweKeySwitchKey_fromStream(in); })) return 1; }
+    return 0;
+}
 int main(int argc, char **argv) {
+    if (argc > 1 && !strcmp(argv[1], "C18")) return mistyped();
     if (!(argc > 1 && !strcmp(argv[1], "C05text")) && standalone()) return 1;
     if (argc > 1 && !strcmp(argv[1], "C05text")) return textlayer();
     if (argc > 1 && !strcmp(argv[1], "C05")) {
